@@ -1,6 +1,168 @@
-//! C01 — not built yet.
+//! C01 — Zinc encode -> decode returns the original value.
+//!
+//! input: VX of one value.  label `wf…` = well-formed in the sense of the property (round trip
+//! must be exact), `any…` = arbitrary constructible value (model fidelity only).
+//! Correspondence: `C01 enc V` -> `ok H(text)`; `C01 dec H(text)` -> `ok V'` | `err`.
+//! Oracle: `from_str(to_zinc_string(v))` equals `v` in every component (`same::diff`).
+
 use crate::ctx::{CaseOut, Ctx};
+use crate::gen::{self, Cfg};
+use crate::same;
+use crate::vx;
+use libhaystack::encoding::zinc::decode::from_str;
+use libhaystack::encoding::zinc::encode::to_zinc_string;
+use libhaystack::val::*;
 
-pub fn exec(_label: &str, _input: &str, _out: &mut CaseOut) {}
+pub fn dec_reply(text: &str) -> (String, Option<Value>) {
+    match from_str(text) {
+        Ok(v) => (format!("ok {}", vx::show(&v)), Some(v)),
+        Err(_) => ("err".to_string(), None),
+    }
+}
 
-pub fn generate(_ctx: &mut Ctx) {}
+pub fn kind_name(v: &Value) -> &'static str {
+    match v {
+        Value::Null => "null",
+        Value::Remove => "remove",
+        Value::Marker => "marker",
+        Value::Bool(_) => "bool",
+        Value::Na => "na",
+        Value::Number(_) => "number",
+        Value::Str(_) => "str",
+        Value::Uri(_) => "uri",
+        Value::Ref(_) => "ref",
+        Value::Symbol(_) => "symbol",
+        Value::Date(_) => "date",
+        Value::Time(_) => "time",
+        Value::DateTime(_) => "dateTime",
+        Value::Coord(_) => "coord",
+        Value::XStr(_) => "xstr",
+        Value::List(_) => "list",
+        Value::Dict(_) => "dict",
+        Value::Grid(_) => "grid",
+    }
+}
+
+pub fn exec(label: &str, input: &str, out: &mut CaseOut) {
+    let v = match vx::parse(input) {
+        Some(v) => v,
+        None => {
+            out.fail("harness", "unparsable VX input".into());
+            return;
+        }
+    };
+    out.nontrivial = true;
+    out.stat(&format!("kind:{}", kind_name(&v)));
+    out.stat(&format!("depth:{}", same::depth(&v).min(8)));
+    let text = match to_zinc_string(&v) {
+        Ok(t) => t,
+        Err(e) => {
+            if label.starts_with("wf") {
+                out.fail("enc_err", format!("to_zinc_string failed on a well-formed value: {e}"));
+            }
+            out.req(format!("C01 enc {input}"), "err".into());
+            return;
+        }
+    };
+    // the model's XStr capitalisation is ASCII-only: compare bytes only when that is what happens
+    let ascii_types = input_ascii_xstr(&v);
+    if ascii_types {
+        out.req(format!("C01 enc {input}"), format!("ok {}", vx::h(&text)));
+    }
+    let (reply, back) = dec_reply(&text);
+    out.req(format!("C01 dec {}", vx::h(&text)), reply);
+    if label.starts_with("wf") {
+        match back {
+            None => out.fail("rt_decode_err", format!("decoder rejects the encoder's output {text:?}")),
+            Some(b) => {
+                if let Some(d) = same::diff(&v, &b, "v") {
+                    out.fail("rt_mismatch", format!("{d}   (text {text:?})"));
+                }
+            }
+        }
+    }
+}
+
+fn input_ascii_xstr(v: &Value) -> bool {
+    fn d(d: &Dict) -> bool {
+        d.values().all(input_ascii_xstr)
+    }
+    match v {
+        Value::XStr(x) => x.r#type.chars().next().map_or(true, |c| c.is_ascii()),
+        Value::List(l) => l.iter().all(input_ascii_xstr),
+        Value::Dict(dd) => d(dd),
+        Value::Grid(g) => {
+            g.meta.as_ref().map_or(true, d)
+                && g.columns.iter().all(|c| c.meta.as_ref().map_or(true, d))
+                && g.rows.iter().all(d)
+        }
+        _ => true,
+    }
+}
+
+/// fixed shapes the property's quantifier text names explicitly
+pub fn named_cases() -> Vec<Value> {
+    let mut v: Vec<Value> = Vec::new();
+    let d = |kvs: &[(&str, Value)]| -> Dict {
+        let mut d = Dict::new();
+        for (k, v) in kvs {
+            d.insert(k.to_string(), v.clone());
+        }
+        d
+    };
+    let col = |n: &str, m: Option<Dict>| Column { name: n.to_string(), meta: m };
+    // grids: with/without meta, column meta first/middle/last, Null and missing cells, zero rows
+    v.push(Value::Grid(Grid { meta: Some(d(&[("dis", "x".into())])), columns: vec![col("a", None)], rows: vec![d(&[("a", 1.into())])], ver: "3.0".into() }));
+    v.push(Value::Grid(Grid { meta: None, columns: vec![col("a", Some(d(&[("dis", "x".into())]))), col("b", None)], rows: vec![d(&[("a", 1.into())])], ver: "3.0".into() }));
+    v.push(Value::Grid(Grid { meta: None, columns: vec![col("a", None), col("b", Some(d(&[("dis", "x".into()), ("m", Value::Marker)])))], rows: vec![d(&[("b", Value::Null)])], ver: "3.0".into() }));
+    v.push(Value::Grid(Grid { meta: Some(d(&[("m", Value::Marker), ("n", 2.into())])), columns: vec![col("a", None), col("b", Some(d(&[("u", Value::make_uri("x y"))]))), col("c", None)], rows: vec![], ver: "3.0".into() }));
+    v.push(Value::Grid(Grid { meta: None, columns: vec![col("a", None)], rows: vec![d(&[("a", Value::Null)]), d(&[("a", 1.into())])], ver: "3.0".into() }));
+    v.push(Value::Grid(Grid::make_empty()));
+    v.push(Value::Ref(Ref { value: "a".into(), dis: Some("x\"y\\z".into()) }));
+    v.push(Value::XStr(XStr { r#type: "Bin".into(), value: "a\"b\\c$d\n".into() }));
+    v.push(Value::make_uri("a\\b`c d é😀"));
+    v.push(Value::make_str("\u{8}\u{c}\u{b}\u{f}\u{0}$\"\\😀"));
+    v
+}
+
+pub fn generate(ctx: &mut Ctx) {
+    for v in named_cases() {
+        ctx.case("wf:named", &vx::show(&v));
+    }
+    // every unit once (finite magnitude)
+    for (i, u) in gen::all_units_cached().iter().enumerate() {
+        let x = gen::F64_EDGES[i % gen::F64_EDGES.len()];
+        ctx.case("wf:unit", &vx::show(&Value::Number(Number { value: x, unit: Some(u) })));
+    }
+    // every unambiguous zone once
+    {
+        use chrono::TimeZone;
+        let zones = gen::zones_cached(true).clone();
+        let step = if ctx.quick() { 7 } else { 1 };
+        for (i, z) in zones.iter().enumerate() {
+            if i % step != 0 {
+                continue;
+            }
+            let secs = 315_532_800 + (i as i64) * 4_000_003;
+            let dt = z.timestamp_opt(secs, (i as u32 % 3) * 500_000_000 / 2).single().unwrap();
+            ctx.case("wf:zone", &vx::show(&Value::DateTime(DateTime::from(dt))));
+        }
+    }
+    let total = ctx.n(4000, 200_000);
+    for i in 0..total {
+        let mut rng = ctx.rng.fork();
+        let depth = if i % 10 == 0 { 6 } else { 3 };
+        let v = gen::value(&mut rng, &Cfg::wf(depth));
+        ctx.case("wf:rand", &vx::show(&v));
+    }
+    // arbitrary (not well-formed) values: the model must still agree with the code
+    let total = ctx.n(1000, 30_000);
+    for _ in 0..total {
+        let mut rng = ctx.rng.fork();
+        let v = gen::value(&mut rng, &Cfg::any(3));
+        ctx.case("any:rand", &vx::show(&v));
+    }
+    // known finding Z4: single-column grid, row without the cell
+    let g = Grid { meta: None, columns: vec![Column { name: "a".into(), meta: None }], rows: vec![Dict::new(), { let mut d = Dict::new(); d.insert("a".into(), 1.into()); d }], ver: "3.0".into() };
+    ctx.case("wf:z4", &vx::show(&Value::Grid(g)));
+}
